@@ -577,11 +577,56 @@ def sc_reader_lock_leak(env):
     return {"victim": p1.exitcode, "got": got, "sibling_alive": alive}
 
 
+class _Unpicklable:
+    """put() accepts it (pickling happens later, in the queue's feeder thread), the feeder cannot send it"""
+
+    def __init__(self, delay=0.0):
+        self.delay = delay
+
+    def __reduce__(self):
+        if self.delay and ENV_REAL:
+            time.sleep(self.delay)  # real run: the feeder is still pickling when the main thread starts to exit
+        raise TypeError("cannot pickle this")
+
+
+def w_put_unpicklable(q, env, settle):
+    q.put("before")
+    q.put(_Unpicklable(0.0 if settle else 0.4))
+    if settle:
+        env.settle()  # the feeder has met (and dropped) the item while the process is not exiting
+    q.put("after")
+    q.put(None)
+
+
+def sc_unpicklable_item_is_dropped(env):
+    """Queue._feed / _on_queue_feeder_error: an item that cannot be pickled is dropped (traceback on
+    stderr), the feeder thread carries on with the items behind it; put() itself does not fail"""
+    q = env.mp.Queue()
+    p = env.mp.Process(target=w_put_unpicklable, args=(q, env, True))
+    p.start()
+    got = _drain(env, q, 4, timeout=1.0)
+    p.join()
+    return {"got": got, "exitcode": p.exitcode}
+
+
+def sc_unpicklable_item_while_exiting(env):
+    """the same error once the process is in util._exit_function(): "if is_exiting(): return" - the feeder
+    thread ends, whatever is buffered behind the item is never sent, the process still exits with 0
+    (real run: deterministic thanks to the slow __reduce__; simulation: both orders are schedules)"""
+    q = env.mp.Queue()
+    p = env.mp.Process(target=w_put_unpicklable, args=(q, env, False))
+    p.start()
+    got = _drain(env, q, 4, timeout=1.5)
+    p.join()
+    return {"got": got, "exitcode": p.exitcode}
+
+
 SCENARIOS = [
     sc_normal_exit, sc_exception_flushes, sc_sys_exit_3, sc_sigkill_prefix, sc_get_timeout_empty, sc_per_worker_fifo,
     sc_dead_means_flushed, sc_exitcode_while_alive, sc_terminate, sc_join_before_drain_big, sc_killed_holding_lock,
     sc_torn_frame_blocks_get, sc_pool_map, sc_pool_exception, sc_pool_worker_killed, sc_pool_sys_exit_in_task, sc_pool_close_join,
     sc_pipe_eof, sc_simplequeue, sc_condition_turns, sc_joinable_queue, sc_reader_lock_leak, sc_pipe_eof_inside_message, sc_sigchld_handler_reaps_child, sc_connection_wait_on_sentinels, sc_fork_snapshot_of_closure, sc_thread_queue_roundtrip, sc_non_daemon_thread_keeps_process_alive,
+    sc_unpicklable_item_is_dropped, sc_unpicklable_item_while_exiting,
 ]
 
 
